@@ -178,7 +178,20 @@ const LAYOUTS: [&str; 3] = ["cyclic", "separable", "noisy"];
 /// the starting objective n ln 2 exceeds 40, so the Armijo test can accept an iterate at which a
 /// misclassified sample has |score| > 40.
 const LOPSIDED: [&str; 2] = ["lopsided-extreme", "lopsided-interior"];
-const LOPSIDED_N: [usize; 2] = [60, 100];
+fn lopsided_n(t: bool) -> &'static [usize] {
+    if t {
+        &[58, 60, 70, 80, 90, 100]
+    } else {
+        &[60, 100]
+    }
+}
+fn lopsided_m(t: bool) -> usize {
+    if t {
+        5
+    } else {
+        3
+    }
+}
 
 pub fn plan(t: bool, seed: u64, jobs: &mut Vec<Job>) {
     let bl = blocks(t);
@@ -201,10 +214,10 @@ pub fn plan(t: bool, seed: u64, jobs: &mut Vec<Job>) {
             }
         }
     }
-    for &n in &LOPSIDED_N {
+    for &n in lopsided_n(t) {
         for p in 1..=6usize {
             for (li, l) in LOPSIDED.iter().enumerate() {
-                for m in 1..=3usize {
+                for m in 1..=lopsided_m(t) {
                     jobs.push(Job::new(
                         format!("saturated-formula-n{}-p{}-k2-{}-m{}", n, p, l, m),
                         json!({"kind": "structured", "n": n, "p": p, "k": 2, "layout": LAYOUTS.len() + li, "minority": m, "seed": seed, "sat": true, "thorough": t}),
@@ -236,6 +249,19 @@ pub fn floors(t: bool) -> Vec<(&'static str, u64)> {
         ("intercept_nonzero", 10_000 * s),
         ("structured_fit", 2000),
         ("single_class_outside_domain", 10),
+        // round 2: the saturated-scores family (two classes, scale-100 maps with no / large offsets)
+        ("saturated_family_fit", 25_000 * s),
+        ("saturated_overlapping(same x, different labels)", 10_000 * s),
+        // some misclassified training sample has |score| > 40 at the returned parameters, or at a
+        // point the first line search (from zero along -grad) evaluates, accepted iterate included
+        ("saturated_misclassified_|score|>40(at the result or on the way to the first accepted iterate)", 15_000 * s),
+        // ... at the returned parameters or AT the first accepted iterate (needs n ln 2 > 40: the lopsided sets)
+        ("saturated_misclassified_|score|>40(at the result or AT the first accepted iterate)", 40),
+        ("saturated_misclassified_score>+40_at_first_accepted_iterate(reference run)", 20),
+        ("saturated_misclassified_score<-40_at_first_accepted_iterate(reference run)", 20),
+        ("saturated_some_|score|>40_at_an_accepted_iterate(reference run)", 1500 * s),
+        ("saturated_some_|score|>40_at_result", 500 * s),
+        ("saturated_reference_run_ends_where_fit_does(1e-6)", 15_000 * s),
     ]
 }
 
@@ -249,10 +275,20 @@ pub fn bounds(t: bool, seed: u64) -> Value {
         .collect();
     json!({
         "x_alphabet": "p=1: {0,1,-1,2} (first x_letters of it); p=2: the 2x2 lattice {0,1}^2; raw values shifted by (seed%8)/4, then mapped by a*x+b",
+        "maps": MAPS.iter().map(|m| format!("{:?}", m)).collect::<Vec<_>>(),
         "seed_shift": (seed % 8) as f64 * 0.25,
         "label_tables": "plain: letter c -> c; ugly: letter c -> {-3, 7, 10, 8.5}[c]",
         "blocks": bl,
-        "structured": format!("n in {:?} x p in 1..6 x k in 2..4 x layouts {:?} x 4 maps x 4 alphas x 2 label tables", STRUCT_N, LAYOUTS),
+        "structured": format!("n in {:?} x p in 1..6 x k in 2..4 x layouts {:?} x 4 maps (the first 4) x 4 alphas x 2 label tables", STRUCT_N, LAYOUTS),
+        "saturated_scores_family(round 2)": {
+            "what": "two-class sets on which the optimiser evaluates points with |linear score| > 40 (the library's sigmoid returns exactly 0/1 there, its ln_1pe returns s above 15); same oracle as everything else (stationarity, monotonicity, predictions)",
+            "maps": sat_maps(t).iter().map(|m| format!("{:?}", MAPS[*m])).collect::<Vec<_>>(),
+            "alphas": SAT_ALPHAS.iter().map(|a| ALPHAS[*a]).collect::<Vec<_>>(),
+            "lattice": "the blocks above whose (map,alpha,label_table) use these maps: every multiset of n = 6 letters, p = 1 (x in {0,1,-1,2}) and p = 2 ({0,1}^2), 2 label letters, plain labels (thorough: also the ugly table, n = 8 multisets and every p = 1 sequence of 6 letters)",
+            "formula_sets": format!("the structured family's features with k = 2: n in {:?} x p in 1..6 x layouts {:?} x maps x alphas x 2 label tables", sat_struct_n(t), LAYOUTS),
+            "lopsided_sets": format!("the same features, n in {:?} x p in 1..6: m in 1..{} samples of one class (the m largest projections t = 'lopsided-extreme', separable; the m at the median of t = 'lopsided-interior', overlapping), all others of the other class, both assignments of the two labels, x maps x alphas x 2 label tables; n ln 2 > 40, so an accepted iterate can have a misclassified sample with |score| > 40", lopsided_n(t), lopsided_m(t)),
+            "non_vacuity": "scores are recomputed in the harness at the returned parameters and at every point evaluated by a reference run of the real LBFGS + Backtracking(THIRD) on the harness's own objective (counters saturated_*; floors in Plan::floors)",
+        },
         "queries": "the training rows plus 3 off-lattice points (structured: plus the negated training rows shifted by -1/2)",
     })
 }
@@ -365,7 +401,15 @@ pub fn run(job: &Job) {
                 (MAPS[mc::choose(N_STRUCT_MAPS)], ALPHAS[mc::choose(ALPHAS.len())])
             };
             let ugly = mc::choose(2) == 1;
-            let (raw, letters) = if layout >= LAYOUTS.len() { lopsided_data(n, p, layout - LAYOUTS.len(), job.u("minority")) } else { structured_data(n, p, k, layout) };
+            let (raw, letters) = if layout >= LAYOUTS.len() {
+                // the minority is the class with the larger label (misclassified minority: s < 0) or,
+                // mirrored, the one with the smaller label (s > 0)
+                let mirrored = mc::choose(2) == 1;
+                let (raw, l) = lopsided_data(n, p, layout - LAYOUTS.len(), job.u("minority"));
+                (raw, l.iter().map(|&c| if mirrored { 1 - c } else { c }).collect())
+            } else {
+                structured_data(n, p, k, layout)
+            };
             let queries_raw: Vec<Vec<f64>> = raw.iter().map(|r| r.iter().map(|v| -v - 0.5).collect()).collect();
             mc::count("structured_fit");
             fit_case(&Case { raw, letters, queries_raw, map, alpha, ugly, shift, family: if sat { "saturated-structured" } else { "structured" } });
@@ -402,17 +446,18 @@ fn overlapping_rows(x: &[Vec<f64>], yi: &[usize]) -> bool {
 
 /// Largest |linear score| over all training rows and over the MISCLASSIFIED ones (score sign
 /// against the label; class index `pos` plays "1") at the two-class parameters `w` = [w.., b].
-fn score_extremes(x: &[Vec<f64>], yi: &[usize], pos: usize, w: &[f64]) -> (f64, f64) {
+fn score_extremes(x: &[Vec<f64>], yi: &[usize], pos: usize, w: &[f64]) -> (f64, f64, bool) {
     let p = w.len() - 1;
-    let (mut any, mut mis) = (0.0f64, 0.0f64);
+    let (mut any, mut mis, mut mis_positive) = (0.0f64, 0.0f64, false);
     for (row, &c) in x.iter().zip(yi) {
         let s: f64 = row.iter().zip(w).map(|(a, b)| a * b).sum::<f64>() + w[p];
         any = any.max(s.abs());
-        if (c == pos && s < 0.0) || (c != pos && s > 0.0) {
-            mis = mis.max(s.abs());
+        if ((c == pos && s < 0.0) || (c != pos && s > 0.0)) && s.abs() > mis {
+            mis = s.abs();
+            mis_positive = s > 0.0;
         }
     }
-    (any, mis)
+    (any, mis, mis_positive)
 }
 
 /// Saturation diagnostics of one two-class fit (non-vacuity only — no verdict depends on them).
@@ -428,18 +473,23 @@ struct SatDiag {
     first_search_trials: usize,
     mis_on_first_search: f64,
     any_at_first_accepted: f64,
+    mis_at_first_accepted: f64,
+    /// sign of the score of that misclassified sample
+    mis_first_positive: bool,
     any_at_accepted: f64,
     mis_at_accepted: f64,
     mis_at_trial: f64,
     accepted: usize,
     iterations: usize,
     panicked: bool,
+    /// the reference run ends within 1e-6 (relative to the largest parameter) of what `fit` returned
+    agrees: bool,
 }
 
 fn saturation_diagnostics(x: &[Vec<f64>], yi: &[usize], pos: usize, alpha: f64, libw: &[f64]) -> SatDiag {
     let p = libw.len() - 1;
     let mut d = SatDiag::default();
-    let (a, m) = score_extremes(x, yi, pos, libw);
+    let (a, m, _) = score_extremes(x, yi, pos, libw);
     d.any_at_result = a;
     d.mis_at_result = m;
     // event log of the reference run: (is_df, point)
@@ -467,9 +517,13 @@ fn saturation_diagnostics(x: &[Vec<f64>], yi: &[usize], pos: usize, alpha: f64, 
         Err(_) => d.panicked = true,
     }
     let zero = vec![0.0; p + 1];
+    if let Some((_, last)) = log.borrow().iter().rev().find(|(is_df, _)| *is_df) {
+        let scale = libw.iter().fold(1.0f64, |m, v| m.max(v.abs()));
+        d.agrees = last.iter().zip(libw).all(|(a, b)| (a - b).abs() <= 1e-6 * scale);
+    }
     let mut last_df: Vec<f64> = Vec::new();
     for (is_df, w) in log.borrow().iter() {
-        let (a, m) = score_extremes(x, yi, pos, w);
+        let (a, m, m_positive) = score_extremes(x, yi, pos, w);
         if *is_df {
             if *w != last_df {
                 last_df = w.clone();
@@ -477,6 +531,8 @@ fn saturation_diagnostics(x: &[Vec<f64>], yi: &[usize], pos: usize, alpha: f64, 
                     d.accepted += 1;
                     if d.accepted == 1 {
                         d.any_at_first_accepted = a;
+                        d.mis_at_first_accepted = m;
+                        d.mis_first_positive = m_positive;
                     }
                     d.any_at_accepted = d.any_at_accepted.max(a);
                     d.mis_at_accepted = d.mis_at_accepted.max(m);
@@ -587,14 +643,14 @@ pub fn fit_case(c: &Case) {
             ma - mx > 690.0
         });
     // input class (two classes): at the returned parameters some training row has a linear score
-    // 15 < s <= 16, i.e. just past the point where the library's ln_1pe switches to "s" and drops
+    // 15 < s <= 15.5, i.e. just past the point where the library's ln_1pe switches to "s" and drops
     // the exp(-s) term of the objective (a downward jump of 3e-7 at s = 15) while its sigmoid, i.e.
     // the gradient, is still exact: the optimiser can get stuck on that spurious step (round 2,
     // defect D5; the two instances found have s = 15.00000000002 and s = 15.31)
     let ln1pe_zone = k == 2
         && x.iter().any(|row| {
             let s = row.iter().zip(&libw[0]).map(|(a, b)| a * b).sum::<f64>() + libw[0][p];
-            s > 15.0 && s <= 16.0
+            s > 15.0 && s <= 15.5
         });
     let judge = |perm: &[usize]| -> Judged {
         let mut viols = Vec::new();
@@ -717,6 +773,13 @@ pub fn fit_case(c: &Case) {
         if d.mis_at_result > SATURATION {
             mc::count("saturated_misclassified_|score|>40_at_result");
         }
+        if d.mis_at_result > SATURATION || d.mis_at_first_accepted > SATURATION {
+            mc::count("saturated_misclassified_|score|>40(at the result or AT the first accepted iterate)");
+        }
+        if d.mis_at_first_accepted > SATURATION {
+            // s > 40 (true class "0") and s < -40 (true class "1") are different branches of the library's sigmoid
+            mc::count(if d.mis_first_positive { "saturated_misclassified_score>+40_at_first_accepted_iterate(reference run)" } else { "saturated_misclassified_score<-40_at_first_accepted_iterate(reference run)" });
+        }
         if d.any_at_result > SATURATION {
             mc::count("saturated_some_|score|>40_at_result");
         }
@@ -747,6 +810,9 @@ pub fn fit_case(c: &Case) {
         }
         if d.panicked {
             mc::count("saturated_reference_run_panicked");
+        }
+        if d.agrees {
+            mc::count("saturated_reference_run_ends_where_fit_does(1e-6)");
         }
         if d.iterations > 30 {
             mc::count("saturated_reference_run_more_than_30_iterations");
